@@ -107,6 +107,73 @@ def impl_cmd(line):
         return dict(line=line, ok=False, escaped=type(x).__name__)
 
 
+DEFAULT_RECURSION_LIMIT = 1000      # CPython's, which `ka` never changes
+
+
+def impl_deep(text):
+    """execute() only: the harness's own encoders recurse, and must not stand in for Ka's stack"""
+    import io
+    from ka.interpret import execute
+    from ka.eval import EvalEnvironment
+    o, e = io.StringIO(), io.StringIO()
+    old = sys.getrecursionlimit()
+    sys.setrecursionlimit(DEFAULT_RECURSION_LIMIT)      # the workers raise it for the harness's own encoders; a user has the default
+    try:
+        st = execute(text, EvalEnvironment(), out=o, errout=e)
+        return dict(status=st, out=o.getvalue()[:200], err=e.getvalue()[:200])
+    except C.CaseTimeout:
+        raise
+    except BaseException as x:
+        return dict(status=None, escaped=type(x).__name__, out=o.getvalue()[:200], err=e.getvalue()[:200])
+    finally:
+        sys.setrecursionlimit(old)
+
+
+def impl_deep_session(spec):
+    """spec = (first input, repeated input, times, probes): a value grown step by step over one session; the first
+    outcome that is not well formed is returned (with the step), else the last one"""
+    import io
+    from ka.interpret import execute
+    from ka.eval import EvalEnvironment
+    first, again, times, probes = spec
+    env = EvalEnvironment()
+    last = None
+    old = sys.getrecursionlimit()
+    sys.setrecursionlimit(DEFAULT_RECURSION_LIMIT)
+    try:
+        for step, text in enumerate([first] + [again] * times + list(probes)):
+            o, e = io.StringIO(), io.StringIO()
+            try:
+                st = execute(text, env, out=o, errout=e)
+                last = dict(step=step, text=text, status=st, out=o.getvalue()[:80], err=e.getvalue()[:200])
+            except C.CaseTimeout:
+                raise
+            except BaseException as x:
+                return dict(step=step, text=text, status=None, escaped=type(x).__name__, out=o.getvalue()[:80], err=e.getvalue()[:200])
+            if not C.well_formed_outcome(last)[0]:
+                return last
+        return last
+    finally:
+        sys.setrecursionlimit(old)
+
+
+def deep_inputs():
+    """nesting and length far beyond what the Python stack carries: every construct that recurses in the parser, the
+    evaluator or the display"""
+    out = []
+    for n in (30, 45, 60, 75, 90, 99, 120, 200, 480, 990, 3000, 20000):
+        out += [("paren", "(" * n + "1" + ")" * n), ("array", "{" * n + "1" + "}" * n), ("call", "abs(" * n + "1" + ")" * n),
+                ("minus", "-" * n + "1"), ("call2", "max(1, " * n + "1" + ")" * n), ("unit", "(" * n + "1 m" + ")" * n + " to cm"),
+                ("comprehension", "{x : x in " * n + "{1}" + "}" * n), ("interval", "[0, " * n + "1" + "]" * n),
+                ("mixed", "{(-abs(" * n + "1" + "))}" * n), ("open", "(" * n + "1"), ("open-array", "{" * n)]
+    for n in (300, 600, 900, 960, 975, 985, 990, 1000, 1500, 4000, 30000):
+        out += [("sum", "+".join(["1"] * n)), ("product", "*".join(["2"] * n)), ("power", "^".join(["1"] * n)), ("compare", "<".join(["1"] * n)),
+                ("sum-units", " + ".join(["1 m"] * n)), ("statements", ";".join(["x=1"] * n)), ("elements", "{" + ",".join(["1"] * n) + "}"),
+                ("factorials", "1" + "!" * n), ("division", "/".join(["1"] * n)), ("units", "1" + " m" * n), ("range-chain", "..".join(["1"] * n)),
+                ("assign-sum", "x = " + "+".join(["1"] * n) + "; x")]
+    return out
+
+
 def layout(ctx, ind, ln, index):
     low = max(0, index - ctx)
     high = min(ln, index + ctx + 1)
@@ -303,6 +370,36 @@ def run(ctx):
                               dict(text=text, err=o.get("err"), marker=o["markers"][0][:2]))
         if len(samples) < 8 and len(text) > 3 and hash(text) % 3001 == 7:
             samples.append(dict(input=text, status=o.get("status"), out=(o.get("out") or "")[:60], err=(o.get("err") or "")[:60]))
+    # ---- G: nesting and length beyond the Python stack (the parser, the evaluator and the display all recurse)
+    deep = deep_inputs() if not ctx.get("replay") else []
+    dobs = C.run_impl(impl_deep, [t for _, t in deep], ctx["rundir"], limit=20.0, chunksize=8)
+    for (family, text), o in zip(deep, dobs):
+        fam["deep"] = fam.get("deep", 0) + 1
+        short = text if len(text) < 60 else "%s…%s (%d characters, %s)" % (text[:24], text[-12:], len(text), family)
+        if o.get("hung"):
+            if family in ("factorials", "power", "product"):
+                continue        # amplifiers: promptness is promised for small arguments only
+            rep.violation(dict(kind="hang", head="deep:" + family), "C06 fails: `%s` did not return within the time limit" % short, dict(text=text, outcome="hung"))
+            continue
+        ok, why = C.well_formed_outcome(o)
+        hist["deep:" + ("value" if o.get("status") == 0 else "diagnosed" if o.get("status") == 1 else "escaped")] = \
+            hist.get("deep:" + ("value" if o.get("status") == 0 else "diagnosed" if o.get("status") == 1 else "escaped"), 0) + 1
+        if not ok:
+            rep.violation(dict(kind="deep", family=family, why=why[:40]), "C06 fails: `%s`: %s" % (short, why),
+                          dict(text=text, outcome=why, status=o.get("status"), out=o.get("out"), err=o.get("err")))
+    grown = [("a = {1}", "a = {a}", 700, ["a", "{a}", "len(a)"]), ("a = 1", "a = (a + 1)", 1500, ["a"]), ("a = {1}", "a = {a, a}", 18, ["a"]),
+             ("a = [0, 1]", "a = a + a", 1200, ["a"]), ("a = 1 m", "a = a * (1 m)", 1200, ["a"])] if not ctx.get("replay") else []
+    for spec, o in zip(grown, C.run_impl(impl_deep_session, grown, ctx["rundir"], limit=120.0, chunksize=1)):
+        fam["deep"] = fam.get("deep", 0) + 1
+        what = "`%s` then %d times `%s`" % (spec[0], spec[2], spec[1])
+        if o.get("hung"):
+            rep.violation(dict(kind="hang", head="deep-session"), "C06 fails: the session %s did not return" % what, dict(text=what, outcome="hung"))
+            continue
+        ok, why = C.well_formed_outcome(o)
+        if not ok:
+            rep.violation(dict(kind="deep", family="session", why=why[:40]),
+                          "C06 fails: in the session %s, step %d `%s`: %s (output %r, diagnostic %r)" % (what, o.get("step"), o.get("text"), why, o.get("out"), (o.get("err") or "")[:60]),
+                          dict(text=what, first=spec[0], repeated=spec[1], times=spec[2], step=o.get("step"), input=o.get("text"), outcome=why, out=o.get("out"), err=o.get("err")))
     # ---- E: `%` commands
     names = [n for c in d["commands"] for n in c["names"]] + ["", "zz", "unit", "U"]
     lines = ["%"] + ["%" + sp + n + a for n in names for sp in ("", " ") for a in ("", " m", " sin", " kilodegC", " a b", "  ", " \t x")]
@@ -313,7 +410,7 @@ def run(ctx):
                           dict(command=o.get("line"), outcome=o.get("escaped", "hung")))
     # ---- F: CLI exit code equals the status
     cli = ["1+1", "1/0", "(", "max()", "x = 3", "\"a\"", "1 m + 1 s", "3!", "sqrt(-1)", "{1,2}", "5 Hz + 2 s", "3 ohm < 2 S", "4 m^-1 == 4 m", "sin(1, zz: 2)",
-           "vline(1, weight: \"a\")", "nosuchfn(1)", "SQRT(2)", "mdegC(3)", "km(3)", "#2024-02-30#", "\"abc", "1 +", "5 m to s", "1 kdegC", "10^400/3", "(10^400/3) m"]
+           "vline(1, weight: \"a\")", "nosuchfn(1)", "SQRT(2)", "mdegC(3)", "km(3)", "#2024-02-30#", "\"abc", "1 +", "5 m to s", "1 kdegC", "10^400/3", "(10^400/3) m", "(" * 150 + "1" + ")" * 150, "+".join(["1"] * 1500), "{" * 120 + "1" + "}" * 120]
     # one input per distinct diagnostic (first 24 characters of the message): the streams of the real process count
     seen_diag = set()
     for (f, t, strict), ob in zip(cases, obs):
@@ -338,6 +435,9 @@ def run(ctx):
     missing = [e for e in cli if e not in known]
     for e, ob in zip(missing, C.run_impl(impl_case, missing, ctx["rundir"], limit=10.0) if missing else []):
         known[e] = ob
+    cli_deep = [e for e in cli if len(e) > 200]
+    for e, ob in zip(cli_deep, C.run_impl(impl_deep, cli_deep, ctx["rundir"], limit=20.0) if cli_deep else []):
+        known[e] = ob           # under the default recursion limit, as the command line runs
     for expr, p in zip(cli, procs):
         if isinstance(p, ValueError):
             continue            # an argument the operating system cannot pass (embedded NUL)
